@@ -70,6 +70,37 @@ def ingest(pid, x):
     return True
 
 
+def run_copy(name, tier='quick', props=None):
+    """like run(), but on a scratch worktree selected with CARDUTIL_REPO (used while /repo is busy with a background
+    run); the result is recorded as 'detection_on_copy' and is re-confirmed against /repo itself by run()."""
+    d = os.path.join(VERIF, 'seeded', name)
+    meta = json.load(open(os.path.join(d, 'meta.json')))
+    wt = tempfile.mkdtemp(prefix='seedrun-', dir='/tmp')
+    os.rmdir(wt)
+    rc, out = sh('git -C %s worktree add -q --detach %s HEAD' % (REPO, wt))
+    assert rc == 0, out
+    results = {}
+    try:
+        rc, out = sh('git apply %s' % os.path.join(d, 'patch.diff'), cwd=wt)
+        assert rc == 0, out
+        for pid in (props or [meta['property']]):
+            t0 = time.time()
+            env = dict(os.environ, CARDUTIL_REPO=wt)
+            rc, out = sh('./check %s --tier %s' % (pid, tier), cwd=VERIF, env=env, timeout=7200)
+            keys = sorted(set(re.findall(r'clause=(\S+)', out)))
+            results[pid] = {'exit': rc, 'violation_lines': out.count('VIOLATION property='), 'clauses': keys[:8],
+                            'wall_s': round(time.time() - t0, 1)}
+            print('%s under %s %s (copy): exit %d, %d VIOLATION lines %s' % (name, pid, tier, rc, out.count('VIOLATION property='), keys[:4]))
+            if rc == 2:
+                print(out[-1500:])
+    finally:
+        sh('git -C %s worktree remove --force %s' % (REPO, wt))
+        shutil.rmtree(wt, ignore_errors=True)
+    meta.setdefault('detection_on_copy', {})[tier] = results
+    json.dump(meta, open(os.path.join(d, 'meta.json'), 'w'), indent=1)
+    return results
+
+
 def run(name, tier='quick', props=None):
     d = os.path.join(VERIF, 'seeded', name)
     meta = json.load(open(os.path.join(d, 'meta.json')))
@@ -102,6 +133,8 @@ def main():
         ingest(sys.argv[2], sys.argv[3])
     elif cmd == 'run':
         run(sys.argv[2], sys.argv[3] if len(sys.argv) > 3 else 'quick', sys.argv[4].split(',') if len(sys.argv) > 4 else None)
+    elif cmd == 'runcopy':
+        run_copy(sys.argv[2], sys.argv[3] if len(sys.argv) > 3 else 'quick', sys.argv[4].split(',') if len(sys.argv) > 4 else None)
     elif cmd == 'runall':
         tier = sys.argv[2] if len(sys.argv) > 2 else 'quick'
         for name in sorted(os.listdir(os.path.join(VERIF, 'seeded'))):
